@@ -121,8 +121,28 @@ def main():
                 continue
             seen_inv.add(inv)
             report(chk, rec)
+    # TLA+ model (tla/JitCache.tla): TLC checks the invariants on the full state graph (no preemption bound); every maximal behaviour
+    # (or, for the larger instance, an edge-covering set) is replayed on the real code
+    from .. import tlaconf
+
+    plans = [(2, 1, "all"), (3, 1, "edges")] if not chk.thorough else [(2, 1, "all"), (2, 2, "all"), (3, 1, "edges"), (3, 2, "edges"), (4, 1, "none")]
+    cov["tla_model"] = []
+    tla_replayed = 0
+    for npr, to, mode in plans:
+        r = tlaconf.model_and_conformance(npr, to, mode, NCPU)
+        cov["tla_model"].append({k: v for k, v in r.items() if k not in ("failures", "tlc_tail")})
+        tla_replayed += r["replayed"]
+        cov["states"] += r["model_states"]
+        cov["transitions"] += r["model_transitions"]
+        if not r["tlc_ok"]:
+            chk.violation(f"{PID}:tla-model:{npr}procs:T{to}:invariant", f"TLC reports an invariant violation of the protocol model with {npr} processes, timeout {to}: {r['tlc_tail'][-300:]}",
+                          recipe=dict(kind="tla", nprocs=npr, timeout=to))
+        for f in r["failures"][:1]:
+            chk.violation(f"{PID}:tla-conformance:{npr}procs:T{to}", f"model behaviour not reproduced by the implementation ({npr} processes, timeout {to}): {f['problem']}",
+                          recipe=dict(kind="tla-path", nprocs=npr, timeout=to, path=f["path"]), observed=r["failures"][:3])
+    cov["model_behaviours_replayed_on_impl"] = tla_replayed
     cov["distinct_outcome_classes"] = classes_total
-    cov["traces_validated_against_impl"] = conformance(chk, cov)
+    cov["traces_validated_against_impl"] = conformance(chk, cov) + tla_replayed
     cov["samples"] = samples
     cov["rule"] = ("every interleaving of the file-system steps / polls of the listed requests within the preemption bound, on the real "
                    "compile_forms code over a real tmpfs directory; state = directory contents + per-process observation history")
